@@ -471,6 +471,19 @@ theorem objsL_map_imm (vs : List Val) : PV.objsL (vs.map PV.imm) = [] := by
   | nil => rfl
   | cons y ys ih => simp [PV.objsL, PV.objs, ih]
 
+theorem Sat.classLookup {c : Ctx} (hA : AwaitOK c) : ∀ (cuts : List (PyStr × PyStr)) (need : List Nat),
+    Sat c need (classLookup cuts) (fun _ => []) := by
+  intro cuts
+  induction cuts with
+  | nil => intro need; simp only [Handlers.classLookup]; exact Sat.pure _ (by simp)
+  | cons pc rest ih =>
+    intro need
+    obtain ⟨p, cn⟩ := pc
+    simp only [Handlers.classLookup]
+    refine Sat.bind (Sat.prim hA _ rfl (by mem_tac)) (fun m => ?_)
+    refine Sat.ite (fun _ => ih _) (fun _ => ?_)
+    exact Sat.bind (Sat.prim hA _ rfl (by mem_tac)) (fun _ => Sat.pure _ (by simp))
+
 theorem Sat.netrefFactory {c : Ctx} (hA : AwaitOK c) {need : List Nat} (idp : IdPack) :
     Sat c need (netrefFactory idp) (fun _ => []) := by
   unfold Handlers.netrefFactory
@@ -478,6 +491,7 @@ theorem Sat.netrefFactory {c : Ctx} (hA : AwaitOK c) {need : List Nat} (idp : Id
   refine Sat.ite (fun _ => Sat.pure _ (by simp)) (fun _ => ?_)
   refine Sat.ite (fun _ => Sat.pure _ (by simp)) (fun _ => ?_)
   refine Sat.bind (Sat.requestTop hA _ _ (by simp [PV.objsL, PV.objs])) (fun methods => ?_)
+  refine Sat.bind (Sat.classLookup hA _ _) (fun _ => ?_)
   refine Sat.bind (Sat.prim hA _ rfl (by mem_tac)) (fun _ => ?_)
   refine Sat.ite (fun _ => ?_) (fun _ => Sat.pure _ (by simp))
   exact Sat.modify _ (fun _ => rfl) (fun _ s hs => ⟨s, hs, rfl⟩) (fun _ p hp => hp)
